@@ -303,6 +303,17 @@ def check_tables(ctx):
                 a = n.slice.value
                 ctx.ob('R4', f, n, a in node_attrs, f"node attribute '{a}' is written by the graph builder" if a in node_attrs else
                        f"node attribute '{a}' is never written by the graph builder")
+    # the exponential weight is capped from above by the threshold
+    for e in uniq_events(it, {'graph_add_edge'}, lambda f: f.qualname == FEG):
+        w = e['attrs'].get('weight_exp')
+        if w is None:
+            continue
+        mm = w.minmax
+        if mm is not None and mm[0] == 'max' and any(a.is_param and a.is_param.endswith(':max_energy_threshold') for a in mm[1]):
+            ctx.ob('R4', fi, e['node'], False, 'the exponential edge weight is clamped with max(exp(w), threshold): every edge weighs at least the threshold, so '
+                                               "the 'dijkstra-exp' search degenerates to counting steps and its paths are not cost-minimal")
+        else:
+            ctx.ob('R4', fi, f'{norm_text(e["node"])} [weight_exp]', True if (mm is None or mm[0] == 'min') else None, 'exponential weight capped by the threshold')
     # node admission and energy stored
     for e in uniq_events(it, {'graph_add_node'}, lambda f: f.qualname == FEG):
         en = e['attrs'].get('energy')
